@@ -194,3 +194,11 @@ Example C09_failed_write_nonvacuous :
   | Fault _ => False
   end.
 Proof. vm_compute. repeat split; reflexivity. Qed.
+
+(* a retransmission that fails in the socket (EvTimeoutTxWF) counts against the budget like one that went out *)
+Theorem C09_lost_retransmission_counted : forall w peer seq t,
+  klookup (peer, seq) (w_tx w) = Some t -> tx_count t < w_maxretrans w ->
+  exists w', step w (EvTimeoutTxWF peer seq) = Ok (w', []) /\
+             klookup (peer, seq) (w_tx w') = Some (mkTx (tx_pdu t) (tx_count t + 1) (tx_rseid t)).
+Proof. exact WriteFail.lost_retransmission_counted. Qed.
+Print Assumptions C09_lost_retransmission_counted.
